@@ -234,6 +234,10 @@ type c11Cache struct {
 	mu     sync.Mutex
 	data   []byte
 	writes [][]byte
+	failed map[int]bool // indices into writes of the documents whose Write was made to fail
+	failNext bool       // the next Write fails (nothing reaches the cache)
+	lastFailed map[int]bool
+	nw       int
 	// a write can be held on a gate: the document lands (is recorded) only when released
 	armed   bool
 	pending chan struct{}
@@ -252,6 +256,15 @@ func (c *c11Cache) Write(b []byte) error {
 	}
 	c.mu.Lock()
 	defer c.mu.Unlock()
+	if c.failNext {
+		c.failNext = false
+		if c.failed == nil {
+			c.failed = map[int]bool{}
+		}
+		c.failed[len(c.writes)] = true
+		c.writes = append(c.writes, append([]byte(nil), b...))
+		return errors.New("scripted cache failure")
+	}
 	c.data = append([]byte(nil), b...)
 	c.writes = append(c.writes, c.data)
 	return nil
@@ -261,6 +274,8 @@ func (c *c11Cache) take() [][]byte {
 	defer c.mu.Unlock()
 	w := c.writes
 	c.writes = nil
+	c.lastFailed = c.failed
+	c.failed = nil
 	return w
 }
 
@@ -291,7 +306,7 @@ type c11Run struct {
 	obs     []string // human-readable trace
 	direct  string   // runtime violation, if any
 	// statistics for the non-triviality rule
-	pollsOK, pollsFail, installs, midChanges, joins, failsInj, cancels int
+	pollsOK, pollsFail, installs, midChanges, joins, failsInj, cancels, wfails int
 	// self-test material: index into steps of a step whose observation can be altered
 	altIdx int
 	altTo  string
@@ -326,8 +341,14 @@ func (r *c11Run) docTerm(b []byte) string {
 
 func (r *c11Run) writes() []string {
 	var out []string
-	for _, w := range r.cache.take() {
-		out = append(out, r.docTerm(w))
+	ws := r.cache.take()
+	for i, w := range ws {
+		t := r.docTerm(w)
+		if r.cache.lastFailed[i] {
+			t = "(off" + strings.TrimPrefix(t, "(ofl")
+			r.wfails++
+		}
+		out = append(out, t)
 	}
 	return out
 }
@@ -336,6 +357,16 @@ func (r *c11Run) emit(strict bool, ev string, outs []string) {
 	c := "St"
 	if !strict {
 		c = "Sb"
+	}
+	for _, o := range outs { // a Cache.Write of this step was made to fail
+		if strings.HasPrefix(o, "(off") {
+			if ev == "E_" {
+				ev = "EF"
+			} else if strict {
+				c = "Sf"
+			}
+			break
+		}
 	}
 	r.steps = append(r.steps, fmt.Sprintf("%s (%s) %s", c, ev, coqList(outs)))
 	r.obs = append(r.obs, ev+" => "+strings.Join(outs, " "))
@@ -488,6 +519,10 @@ func (r *c11Run) poll(op c11Op) {
 				r.srvOp(pre, true)
 			case "secret", "read", "lookup":
 				r.storeOp(pre)
+			case "wfail":
+				r.cache.mu.Lock()
+				r.cache.failNext = true
+				r.cache.mu.Unlock()
 			case "join":
 				r.emit(true, fmt.Sprintf("R %d", time.Now().UnixNano()), nil)
 				callers = append(callers, r.newCaller())
@@ -599,7 +634,7 @@ func (r *c11Run) poll(op c11Op) {
 			r.direct = "a Refresh call did not return although the poll is over"
 		}
 	}
-	if len(outs) > 0 && strings.HasPrefix(outs[0], "(ofl") {
+	if len(outs) > 0 && (strings.HasPrefix(outs[0], "(ofl") || strings.HasPrefix(outs[0], "(off")) {
 		r.installs++
 	}
 	if known {
@@ -688,6 +723,10 @@ func c11Scenario(in c11Input) (rec Record) {
 			r.srvOp(op, false)
 		case "secret", "read", "lookup":
 			r.storeOp(op)
+		case "wfail":
+			r.cache.mu.Lock()
+			r.cache.failNext = true
+			r.cache.mu.Unlock()
 		case "refresh", "tick":
 			r.poll(op)
 		}
@@ -718,6 +757,9 @@ func c11Scenario(in c11Input) (rec Record) {
 	}
 	if r.cancels > 0 {
 		rec.Tags = append(rec.Tags, "context-cancelled")
+	}
+	if r.wfails > 0 {
+		rec.Tags = append(rec.Tags, "cache-write-failed")
 	}
 	if in.HasC {
 		rec.Tags = append(rec.Tags, "startup-cache")
@@ -1171,8 +1213,10 @@ func c11Hooks(rng *rand.Rand, nNames int, intensity int) []c11Hook {
 				hs[i].Pre = append(hs[i].Pre, c11Op{K: "read", N: rng.IntN(nNames)})
 			case x < 86:
 				hs[i].Pre = append(hs[i].Pre, c11Op{K: "lookup", N: rng.IntN(nNames), Fail: rng.IntN(5) == 0})
-			case x < 92:
+			case x < 90:
 				hs[i].Pre = append(hs[i].Pre, c11Op{K: "join"})
+			case x < 92:
+				hs[i].Pre = append(hs[i].Pre, c11Op{K: "wfail"})
 			case x < 97:
 				hs[i].Pre = append(hs[i].Pre, c11Op{K: "cancel", N: rng.IntN(3)})
 			default:
@@ -1227,6 +1271,8 @@ func c11Gen(rng *rand.Rand) c11Input {
 	nOps := 8 + rng.IntN(16)
 	for i := 0; i < nOps; i++ {
 		switch x := rng.IntN(100); {
+		case x < 3:
+			in.Ops = append(in.Ops, c11Op{K: "wfail"})
 		case x < 16:
 			d := int64(1+rng.IntN(30)) * 1e9
 			switch rng.IntN(5) {
@@ -1340,6 +1386,54 @@ func c11SystematicCancel() []c11Input {
 	return out
 }
 
+// c11SystematicWFail: the Cache.Write of a poll's apply (with 0-2 joiners), of a lookup, of the
+// shutdown flush is made to fail; afterwards reads and a clean poll.
+func c11SystematicWFail() []c11Input {
+	var out []c11Input
+	for k := 1; k <= 3; k++ {
+		for j := 0; j <= 2; j++ {
+			for variant := 0; variant < 3; variant++ {
+				if variant > 0 && j > 0 {
+					continue
+				}
+				in := c11Input{Kind: "scn", NDecl: k, Allow: true}
+				for i := 0; i < k; i++ {
+					in.Names = append(in.Names, fmt.Sprintf("d%d", i))
+					in.Vers = append(in.Vers, 2)
+					in.Active = append(in.Active, 1)
+				}
+				in.Names = append(in.Names, "x/0")
+				in.Vers = append(in.Vers, 1)
+				in.Active = append(in.Active, 1)
+				for i := 0; i < k; i++ {
+					in.Ops = append(in.Ops, c11Op{K: "srv", N: i, Sub: "act", V: 1})
+				}
+				switch variant {
+				case 0: // the poll's write fails
+					hs := make([]c11Hook, k)
+					for x := 0; x < j; x++ {
+						hs[0].Pre = append(hs[0].Pre, c11Op{K: "join"})
+					}
+					in.Ops = append(in.Ops, c11Op{K: "wfail"}, c11Op{K: "refresh", Hooks: hs})
+				case 1: // a lookup's write fails, then a poll
+					in.Ops = append(in.Ops, c11Op{K: "wfail"}, c11Op{K: "lookup", N: k}, c11Op{K: "refresh"})
+				case 2: // the poll succeeds; the shutdown flush fails (armed last)
+					in.Ops = append(in.Ops, c11Op{K: "refresh"})
+				}
+				for i := 0; i < k; i++ {
+					in.Ops = append(in.Ops, c11Op{K: "secret", N: i}, c11Op{K: "read", N: i})
+				}
+				in.Ops = append(in.Ops, c11Op{K: "srv", N: 0, Sub: "act", V: 0}, c11Op{K: "refresh"}, c11Op{K: "read", N: 0})
+				if variant == 2 {
+					in.Ops = append(in.Ops, c11Op{K: "wfail"})
+				}
+				out = append(out, in)
+			}
+		}
+	}
+	return out
+}
+
 func runC11(o Opts) {
 	out := NewOut(o.Out)
 	inTest(func(t *testing.T) {
@@ -1385,6 +1479,9 @@ func runC11(o Opts) {
 			runOne(in, "")
 		}
 		for _, in := range c11SystematicCancel() {
+			runOne(in, "")
+		}
+		for _, in := range c11SystematicWFail() {
 			runOne(in, "")
 		}
 		n := 300
